@@ -2711,6 +2711,12 @@ bool BW_MidiSequencer::parseCMF(FileAndMemReader &fr)
     trackCount = 1;
     deltaTicks = (size_t)ticks;
 
+    if(deltaTicks == 0)
+    {
+        m_errorString = fr.fileName() + ": Invalid format, the number of ticks per second is zero!\n";
+        return false;
+    }
+
     rawTrackData.clear();
     rawTrackData.resize(trackCount, std::vector<uint8_t>());
     m_invDeltaTicks = fraction<uint64_t>(1, 1000000l * static_cast<uint64_t>(deltaTicks));
